@@ -25,6 +25,9 @@ type ReplayFn = fn(&Value) -> Vec<Finding>;
 fn table(id: &str) -> Option<(RunFn, ReplayFn)> {
     Some(match id {
         "C01" => (props::c01::run, props::c01::replay),
+        "C02" => (props::c02::run, props::c02::replay),
+        "C03" => (props::c03::run, props::c03::replay),
+        "C07" => (props::c07::run, props::c07::replay),
         "C14" => (props::c14::run, props::c14::replay),
         "C19" => (props::c19::run, props::c19::replay),
         _ => return None,
@@ -81,7 +84,9 @@ fn main() {
     match args[1].as_str() {
         "selftest" => {
             let mut ok = true;
-            for (name, r) in refimpl::selftests() {
+            let mut tests = refimpl::selftests();
+            tests.push(("refwriter<->strictreader", props::c02::mutual_selftest(400)));
+            for (name, r) in tests {
                 match r {
                     Ok(()) => println!("selftest {}: ok", name),
                     Err(e) => {
@@ -135,6 +140,7 @@ fn main() {
                 std::process::exit(2);
             };
             props::install_quiet_panic_hook();
+            let _ = KNOWN.set(load_known(&cfg.verif_dir).into_iter().filter(|k| k.property == id).collect());
             let (meta, mut out, mut extra) = run(&cfg);
             if let Some(path) = merge {
                 // observations of the same workload made by the other feature build (sequential reader)
@@ -162,7 +168,13 @@ fn main() {
                         let p = cfg.verif_dir.join(w);
                         match std::fs::read_to_string(&p).ok().and_then(|s| serde_json::from_str::<Value>(&s).ok()) {
                             Some(v) => {
-                                let fs = replay(v.get("witness").unwrap_or(&v));
+                                let mut wv = v.get("witness").unwrap_or(&v).clone();
+                                if wv.get("signature").is_none() {
+                                    if let (Some(o), Some(sg)) = (wv.as_object_mut(), v.get("signature")) {
+                                        o.insert("signature".into(), sg.clone());
+                                    }
+                                }
+                                let fs = replay(&wv);
                                 fs.iter().any(|f| signature_matches(&k.signature, &f.signature))
                             }
                             None => false,
@@ -184,7 +196,13 @@ fn main() {
             props::install_quiet_panic_hook();
             let s = std::fs::read_to_string(&args[3]).expect("read witness");
             let v: Value = serde_json::from_str(&s).expect("json");
-            let fs = replay(v.get("witness").unwrap_or(&v));
+            let mut wv = v.get("witness").unwrap_or(&v).clone();
+            if wv.get("signature").is_none() {
+                if let (Some(o), Some(sg)) = (wv.as_object_mut(), v.get("signature")) {
+                    o.insert("signature".into(), sg.clone());
+                }
+            }
+            let fs = replay(&wv);
             if fs.is_empty() {
                 println!("replay: property held on this witness");
                 std::process::exit(0);
